@@ -86,6 +86,9 @@ fn inv(op: &Op, _ctx: &dyn Context, operands: &mut dyn CoordinateSet) -> usize {
         return 0;
     };
     let Ok(d) = op.params.real("d") else { return 0 };
+    let Ok(qp) = op.params.real("qp") else {
+        return 0;
+    };
     let Ok(authalic) = op.params.fourier_coefficients("authalic") else {
         return 0;
     };
@@ -100,8 +103,6 @@ fn inv(op: &Op, _ctx: &dyn Context, operands: &mut dyn CoordinateSet) -> usize {
 
     let ellps = op.params.ellps(0);
     let a = ellps.semimajor_axis();
-    let es = ellps.eccentricity_squared();
-    let e = es.sqrt();
 
     let (sin_xi_0, cos_xi_0) = xi_0.sin_cos();
 
@@ -116,7 +117,8 @@ fn inv(op: &Op, _ctx: &dyn Context, operands: &mut dyn CoordinateSet) -> usize {
             let rho = (x - x_0).hypot(y - y_0);
 
             // The authalic latitude is a bit convoluted
-            let denom = a * a * (1.0 - ((1.0 - es) / (2.0 * e)) * ((1.0 - e) / (1.0 + e)).ln());
+            // a²·qp, with qp from the constructor (which handles the spherical case)
+            let denom = a * a * qp;
             let xi = ((-sign) * (1.0 - rho * rho / denom)).asin();
 
             let lon = lon_0 + (x - x_0).atan2(sign * (y - y_0));
